@@ -303,12 +303,43 @@ def rule_chain(chk, fb):
                 chk.touch(d)
 
 
+def rule_guard_sources(chk, fb):
+    rid = chk.rule(
+        "C08.c.guard",
+        "the shift of a reference depends on the reference text only through the coordinate parser: no other predicate over the text of the reference guards the scalar shift in the formula kernels",
+        floor=4,
+    )
+    kernels, hr = formula_kernels(fb)
+    for d, role in sorted(kernels.items()):
+        b = fb.mir[d]
+        cfg = CFG(b)
+        fl = Flow(fb, b)
+        split = {bi for bi, t in fl.calls(lambda t: t.get("fn", "").endswith("get_split_range"))}
+        for n, (bi, t) in enumerate(fl.calls(lambda t: t.get("fn") in hr)):
+            bad = []
+            for x in cfg.control_deps_transitive(bi):
+                sw = b["blocks"][x]["t"]
+                at = fl.atoms(sw["op"])
+                for a in at:
+                    if a[0] == "call" and a[1] in fb.mir and not STOP(a[1]) and not a[1].endswith("get_split_range") and not a[1].endswith("split_address"):
+                        # a crate predicate: does its argument derive from the reference text (an element of the split list)?
+                        ct = b["blocks"][a[2]]["t"]
+                        for arg in ct["args"]:
+                            aa = fl.atoms(arg)
+                            if any(y[0] == "call" and y[2] in split for y in aa) and not fb.mir[a[1]].get("self_ty", "").endswith("FormulaToken"):
+                                bad.append(a[1].split("::")[-1])
+            chk.touch(d)
+            chk.ob(rid, "%s:shift#%d" % (d, n), not bad, where="%s:%s" % (b["file"], t["ln"]), detail="text predicates guarding the shift besides the coordinate parser: %s" % (sorted(set(bad)) or "none"))
+
+
 def run(chk, fb, tier):
     rule_kernels(chk, fb)
     rule_sheet_match(chk, fb)
     rule_chain(chk, fb)
     # C08.e every holder of references is visited (fan-out of the sheet-aware family)
     C07.rule_fanout(chk, fb, tier, traits=(C07.T_SHEET, T_2SHEET), prefix="C08.e", with_retain=False)
+    C07.rule_unconditional(chk, fb, traits=(C07.T_SHEET, T_2SHEET), prefix="C08.e", offset_args={T_2SHEET: {5, 7}})
+    rule_guard_sources(chk, fb)
     # C08.f termination of the edit: the tokenizer's loops make progress
     for d in C09.find_tokenizer(fb):
         C09.rule_progress(chk, fb, d)
